@@ -104,7 +104,7 @@ pub fn registry() -> Vec<Dyn> {
         ESliceOptionString, ESliceTuple, ESliceResult, ESliceVecU32, ESliceHuffman, ESliceStringDict, ESliceColumns,
         ESliceCollapsePairsString, ESliceCollapseString, ESliceColumnsTuple,
         ESliceStringPairsOwned, EOptionSliceU8, EResultSliceColumns, ETupleSliceOption,
-        ESliceVecU32Vec, EOptionVecU32, EResultVecVec
+        ESliceVecU32Vec, EOptionVecU32, EResultVecVec, EResultCollapse
         ; usize:
         EPairsString, EPairsStringVec, EPairsStringList, EPairsStringDict,
         ECollapsePairsString, ECollapsePairsStringList,
@@ -113,7 +113,7 @@ pub fn registry() -> Vec<Dyn> {
         EPairsCodecLearn, EPairsHuffmanU8,
         EColumnsMirrorU8, EColumnsMirrorU8Vec, EColumnsMirrorU8List, EColumnsString, EColumnsPairsString,
         EColumnsOwnedU8, EColumnsSliceU8, EColumnsColumns, EColumnsOptionString, EColumnsCollapsePairsString,
-        EStringPairsOwned, EColumnsVecU32, EColumnsHuffman, EColumnsStringDict
+        EStringPairsOwned, EColumnsVecU32, EColumnsHuffman, EColumnsStringDict, EPairsSliceU8, EPairsSliceString
     );
     v
 }
